@@ -56,16 +56,16 @@ HTML_BOOLS = {"compact", "nowrap", "ismap", "declare", "noshade", "checked", "di
 def ser_static(name, kind):
     return {'dq': ' %s="S%s"' % (name, name), 'sq': " %s='S%s'" % (name, name), 'unq': ' %s=S%s' % (name, name), 'unqpath': ' %s=/S/%s.x' % (name, name),
             'dqent': ' %s="T&amp;J &lt;%s&gt; &#39;"' % (name, name), 'sqent': " %s='&quot;%s&quot; &amp; co'" % (name, name),
-            'valueless': ' %s' % name, 'interp': ' %s="I${iv}"' % name, 'sqinterp': " %s='${iv}J'" % name, 'unqinterp': ' %s=${iv}' % name}[kind]
+            'valueless': ' %s' % name, 'interp': ' %s="I${iv}"' % name, 'interp2': ' %s="${iv}${iv}"' % name, 'sqinterp': " %s='${iv}J'" % name, 'unqinterp': ' %s=${iv}' % name}[kind]
 
 
 def static_text(name, kind):
     return {'dq': 'S' + name, 'sq': 'S' + name, 'unq': 'S' + name, 'valueless': '', 'unqpath': '/S/%s.x' % name,
-            'dqent': 'T&amp;J &lt;%s&gt; &#39;' % name, 'sqent': '&quot;%s&quot; &amp; co' % name, 'interp': None, 'sqinterp': None, 'unqinterp': None}[kind]
+            'dqent': 'T&amp;J &lt;%s&gt; &#39;' % name, 'sqent': '&quot;%s&quot; &amp; co' % name, 'interp': None, 'interp2': None, 'sqinterp': None, 'unqinterp': None}[kind]
 
 
 def static_quote(kind):
-    return {'dq': '"', 'sq': "'", 'unq': '', 'unqpath': '', 'valueless': '', 'dqent': '"', 'sqent': "'", 'interp': '"', 'sqinterp': "'", 'unqinterp': ''}[kind]
+    return {'dq': '"', 'sq': "'", 'unq': '', 'unqpath': '', 'valueless': '', 'dqent': '"', 'sqent': "'", 'interp': '"', 'interp2': '"', 'sqinterp': "'", 'unqinterp': ''}[kind]
 
 
 def esc(v, q):
@@ -118,6 +118,16 @@ def model(statics, entries, cfg, B):
                         out.append((n, 'loose', n, 'static'))
                     continue
                 out.append((n, 'loose', exprs.to_text(iv), 'static'))
+                continue
+            if kind == 'interp2':
+                # two interpolations and nothing else: a boolean attribute is there iff the joined text is non-empty
+                iv = B['iv']
+                txt = ('' if iv is None else esc(iv, q)) * 2
+                if n in BOOL:
+                    if txt:
+                        out.append((n, 'value', (n, q), 'static'))
+                else:
+                    out.append((n, 'value', (txt, q), 'static'))
                 continue
             if kind in ('interp', 'sqinterp'):
                 iv = B['iv']
@@ -237,7 +247,7 @@ def one_case(ctx, statics, entries, cfg, Bs, sample=False):
     # whose value is None stays away
     twin = None
     named = [n for n, v in entries if n]
-    if named and not any(k in ('interp', 'sqinterp', 'unqinterp', 'dqent', 'sqent') for n, k in statics if n.lower() in targeted) \
+    if named and not any(k in ('interp', 'interp2', 'sqinterp', 'unqinterp', 'dqent', 'sqent') for n, k in statics if n.lower() in targeted) \
             and len({n.lower() for n in named}) == len(named) and hash(src) % 3 == 0:
         try:
             twin = PageTemplate(src.replace('>x</p>', ' i18n:attributes="%s">x</p>' % '; '.join(named), 1), **kw)
@@ -350,7 +360,7 @@ def layer_exhaustive(ctx):
 def layer_random(ctx, n):
     rng = ctx.rng
     for case in range(n):
-        statics = [(nm if rng.random() < .8 else CASEVAR[nm], rng.choice(['dq', 'dq', 'sq', 'unq', 'valueless', 'interp', 'sqinterp', 'unqinterp', 'dqent', 'sqent', 'unqpath']))
+        statics = [(nm if rng.random() < .8 else CASEVAR[nm], rng.choice(['dq', 'dq', 'sq', 'unq', 'valueless', 'interp', 'interp2', 'sqinterp', 'unqinterp', 'dqent', 'sqent', 'unqpath']))
                    for nm in rng.sample(NAMES, rng.randint(0, 4))]
         static_l = {n.lower(): k for n, k in statics}
         entries = []
@@ -399,7 +409,7 @@ def layer_random(ctx, n):
                     B[var] = dict(DICTS[var])
                 else:
                     v = value_of(rng.choice(VALS))
-                    if v == 'DEFAULT-MARKER' and static_l.get(nme.lower()) in ('interp', 'sqinterp', 'unqinterp'):
+                    if v == 'DEFAULT-MARKER' and static_l.get(nme.lower()) in ('interp', 'interp2', 'sqinterp', 'unqinterp'):
                         v = 'str'
                     if var.startswith('lit'):
                         v = 'S%s;' % var[3:]
